@@ -2,7 +2,10 @@ package main
 
 import (
 	"fmt"
+	"go/token"
 	"go/types"
+	"sort"
+	"strings"
 
 	"golang.org/x/tools/go/ssa"
 )
@@ -36,6 +39,7 @@ func init() {
 			{ID: "R20o", Floor: 1, Doc: "what DeferredCarWriter.Put does does not depend on the length of the content: an empty block notifies the listeners like any other", Run: ruleR20o},
 			{ID: "R20p", Floor: 1, Doc: "Put calls the callbacks that were registered, each once per Put, in order: the entry is read by value before the once-only removal splices the list", Run: ruleR20p},
 			{ID: "R20q", Floor: 1, Doc: "after a once-only callback was spliced out, the loop over the callbacks looks at the same slot again (i--, or no increment): the entry behind it is not skipped", Run: ruleR20q},
+			{ID: "R20r", Floor: 1, Doc: "what a deferred writer was constructed with stays what it writes with: roots, options, path and stream of a DeferredCarWriter are stored by its constructors only (on the freshly allocated object), never by Put, writer or Close — so the header that goes out at the first Put is the one a directly constructed writer with the same roots and options writes", Run: ruleR20r},
 		},
 	})
 }
@@ -613,4 +617,52 @@ func ruleR20h(c *Ctx, r *Report) {
 		}
 	})
 	r.Check(bad == "", key, c.Pos(fn.Pos()), "acquires no lock", bad)
+}
+
+// ---- R20r: the construction parameters of a deferred writer are set at construction only ---------
+
+func ruleR20r(c *Ctx, r *Report) {
+	cfg := map[string]bool{"roots": true, "opts": true, "outPath": true, "outStream": true}
+	n := 0
+	var bad []string
+	for _, fn := range c.RepoFuncs() {
+		if fn.Pkg == nil || fn.Pkg.Pkg.Path() != pkgDeferred || fn.Parent() != nil {
+			continue
+		}
+		for _, g := range withAnon(fn) {
+			eachInstr(g, func(in ssa.Instruction) {
+				st, ok := in.(*ssa.Store)
+				if !ok {
+					return
+				}
+				// the field itself, or an element of the slice kept in it
+				addr := st.Addr
+				if ia, ok := addr.(*ssa.IndexAddr); ok {
+					if l, ok := ia.X.(*ssa.UnOp); ok && l.Op == token.MUL {
+						addr = l.X
+					}
+				}
+				fa, ok := addr.(*ssa.FieldAddr)
+				if !ok || !typeIs(namedOf(fa.X.Type()), pkgDeferred, "DeferredCarWriter") {
+					return
+				}
+				fv := fieldVar(fa.X.Type(), fa.Field)
+				if fv == nil || !cfg[fv.Name()] {
+					return
+				}
+				n++
+				if _, fresh := fa.X.(*ssa.Alloc); !fresh || addr != st.Addr {
+					bad = append(bad, fmt.Sprintf("%s stores DeferredCarWriter.%s at %s", fnKey(fn), fv.Name(), c.Pos(st.Pos())))
+				}
+			})
+		}
+	}
+	sort.Strings(bad)
+	r.Count("stores to roots, opts, outPath, outStream of a DeferredCarWriter", n)
+	key := "construction-parameters-fixed@deferred.DeferredCarWriter"
+	if n < 4 {
+		r.Undec(key, "-", fmt.Sprintf("only %d stores to the construction parameters of a DeferredCarWriter found", n))
+		return
+	}
+	r.Check(len(bad) == 0, key, "-", "roots, options, path and stream are stored on the freshly allocated object only", strings.Join(bad, "; ")+": the archive that goes out no longer has the roots and options the writer was constructed with — a directly constructed writer given the same roots writes another header")
 }
